@@ -23,9 +23,6 @@ def listerPath (path : String) : Option (String × Option Re) :=
       | none => none
       | some r => some (w, some r)
 
-def walletExists (cfg : Config) (w : String) : Bool :=
-  cfg.wallets.contains w || cfg.accounts.any (·.wallet == w)
-
 /-- `ListAccounts`: per path, the accounts of that wallet whose name matches and which the client may
     access (the rules' list check always approves) -/
 def listAccounts (cfg : Config) (client : String) (paths : List String) : List Account :=
@@ -39,16 +36,7 @@ def listAccounts (cfg : Config) (client : String) (paths : List String) : List A
          | some r => Re.search r a.name) &&
         check cfg.access client (a.wallet ++ "/" ++ a.name) opAccess))
 
-/-- account creation through dirk with a single participant (a plain account in a
-    non-distributed wallet); `none` = refused -/
-def createAccount (cfg : Config) (client : String) (path : String) (pubkey : Bytes) : Option Config :=
-  match walletAndAccount path with
-  | none => none
-  | some (w, a) =>
-    if !walletExists cfg w then none
-    else if a.isEmpty then none
-    else if cfg.accounts.any (fun x => x.wallet == w && x.name == a) then none
-    else if !check cfg.access client path opCreate then none
-    else some { cfg with accounts := cfg.accounts ++ [{ wallet := w, name := a, pubkey := pubkey }] }
+/-! `walletExists` and `createAccount` (account creation through dirk, process.OnGenerate with one
+    participant → fetcher.AddAccount) live in Dirk.Model.Instance, where `Op.create` uses them. -/
 
 end Dirk
